@@ -30,7 +30,7 @@ type Case struct {
 	Steps     []Step
 	Outsider  int  // identity that never signs
 	FinalPass bool // re-parse once more at the end before the final verification round
-	ExtraKey  int    // a generated identity (name, serial and issuer vary, so signature blob lengths cover every value mod 8)
+	ExtraKey  int  // a generated identity (name, serial and issuer vary, so signature blob lengths cover every value mod 8)
 	ExtraCert hx.Hex
 }
 
